@@ -501,6 +501,11 @@ def rule_r1(ctx) -> List[R.Inst]:
 
 
 # --------------------------------------------------------------------------- R2
+def ordered_stmts_(body):
+    from .common import ordered_stmts
+    return ordered_stmts(body)
+
+
 def rule_r2(ctx) -> List[R.Inst]:
     M = ctx.M
     rid = "C10.R2"
@@ -531,6 +536,34 @@ def rule_r2(ctx) -> List[R.Inst]:
                             f"the time-keyed tempo list is sorted neither at construction ({w1}) nor in place before the positional "
                             f"sweeps ({w2}{'' if not g2 else ', but on a copy: the map keeps its unsorted list'})",
                             construct="time-keyed tempo list never sorted in place"))
+    # the queries pair the time list with the position list index by index; the time list is put in order IN PLACE by
+    # bpm_changes_snap() at first use, so a COPY of it taken before that call keeps the caller's order and pairs wrongly
+    for meth in ("offsets", "snaps", "beats"):
+        fq = M.fn(f"{T.TIMINGMAP}.{meth}")
+        body = ordered_stmts_(fq.node.body)
+        first_sort = next((st_ for st_ in body if any(isinstance(x, ast.Call) and call_name(x) == "bpm_changes_snap" for x in ast.walk(st_))), None)
+        stale = []
+        for st_ in body:
+            if isinstance(st_, ast.Assign) and len(st_.targets) == 1 and isinstance(st_.targets[0], ast.Name) and \
+                    (first_sort is None or st_.lineno < first_sort.lineno):
+                v = st_.value
+                copies = (isinstance(v, ast.Call) and call_name(v) in ("list", "tuple", "copy", "deepcopy", "array", "asarray") and
+                          "self.bpm_changes_offset" in unparse(v)) or \
+                    (isinstance(v, ast.Subscript) and isinstance(v.slice, ast.Slice) and unparse(v.value) == "self.bpm_changes_offset") or \
+                    (isinstance(v, (ast.List, ast.ListComp)) and "self.bpm_changes_offset" in unparse(v))
+                if copies and any(isinstance(x, ast.Name) and x.id == st_.targets[0].id and isinstance(x.ctx, ast.Load)
+                                  for s2 in body if s2.lineno > st_.lineno for x in ast.walk(s2)):
+                    stale.append(st_)
+        keyq = f"time-chain:{meth}"
+        fqf = M.mods[fq.mod].rel
+        if stale:
+            insts.append(R.viol(rid, keyq, fqf, stale[0].lineno,
+                                f"'{unparse(stale[0])}' copies the time-keyed tempo list BEFORE bpm_changes_snap() has sorted it in place: the copy "
+                                f"keeps the caller's order and is then paired index by index with the sorted position list (a map built from an "
+                                f"unsorted list answers with another change's tempo on its first query)",
+                                construct=f"{meth}: copy of the tempo list taken before it is sorted"))
+        else:
+            insts.append(R.ok(rid, keyq, fqf, fq.node.lineno, idiom="the tempo list is read after (or through an alias of) the list that is sorted in place"))
     for q, w, g in ((T.RESEAT, None, None),):
         gg, ww = T.callee_sorts_param(ctx, q, "bcs_s", "snap")
         if not gg:
@@ -709,6 +742,18 @@ def rule_r4(ctx) -> List[R.Inst]:
                     insts.append(R.viol(rid, "from_bpm_changes_snap:change", ff, lp.lineno,
                                         "each tempo change must carry its own bpm and metronome at the accumulated time",
                                         construct=unparse(app[0]) if app else "no BpmChangeOffset"))
+                # the running time starts at the caller's initial offset itself (no rounding / truncation on the way in)
+                acc = unparse(step[0].target)
+                ip = next((p_ for p_ in params_of(fs.node) if "offset" in p_), None)
+                inits_ = [n for n in fs.node.body if isinstance(n, ast.Assign) and len(n.targets) == 1 and unparse(n.targets[0]) == acc and n.lineno < lp.lineno]
+                if ip is None or len(inits_) != 1:
+                    insts.append(R.undec(rid, "from_bpm_changes_snap:start", ff, lp.lineno, f"initial value of the running time '{acc}' not found"))
+                elif unparse(inits_[0].value) == ip:
+                    insts.append(R.ok(rid, "from_bpm_changes_snap:start", ff, inits_[0].lineno, idiom=f"{acc} = {ip}: the first change is at the given time"))
+                else:
+                    insts.append(R.viol(rid, "from_bpm_changes_snap:start", ff, inits_[0].lineno,
+                                        f"the running time starts at '{unparse(inits_[0].value)}', not at the caller's '{ip}': every time the map "
+                                        f"returns is shifted by the difference", construct=f"{acc} = {unparse(inits_[0].value)}"))
             else:
                 insts.append(R.viol(rid, "from_bpm_changes_snap:segment", ff, lp.lineno,
                                     "the time between two changes is the position difference integrated at the EARLIER change's tempo",
